@@ -924,7 +924,6 @@ func (p *Path) selectOp(instr *ssa.Select, fr *frame) Value {
 	return r
 }
 
-
 // iteTable builds elems[idx] as an ite chain over runs of equal consecutive elements
 // (lookup tables such as utf8.first have few distinct runs), idx already bounds-checked.
 func (p *Path) iteTable(idx *Term, elems []Value) *Term {
